@@ -31,10 +31,11 @@ class HashedValue(Generic[T]):
             if isinstance(self.value, HashedValue):
                 self.id_ = self.value.id_
                 self.value = self.value.value
-            elif hasattr(self.value, "_id_"):
-                self.id_ = self.value._id_
             else:
-                self.id_ = id(self.value)
+                # Symbolic expressions carry their own identifier; any other object (also one that answers every attribute
+                # name, or happens to have an attribute of that name) is identified by itself.
+                own_id = getattr(self.value, "_id_", None)
+                self.id_ = own_id if type(own_id) is int else id(self.value)
 
     def __hash__(self) -> int:
         """Hash of the identifier."""
